@@ -2,6 +2,7 @@
 from __future__ import annotations
 
 import json
+import os
 from typing import Any, Callable, Dict, List, Optional
 
 from mc.common import Acc, jsonable
@@ -39,8 +40,11 @@ def run_scenarios(
     for sc in scenarios:
         level = sc.get("level", 0)
         mk = lambda sc=sc: make_world(sc)  # noqa: E731
+        # CPU-seconds per scenario; on the unchanged tree the largest quick scenario needs about 35, the largest
+        # thorough one about 250 (a change that makes the state space unbounded runs into it)
+        default_budget = 120.0 if os.environ.get("MC_TIER", "quick") == "quick" else 900.0
         res = explore(mk, level=level, max_states=sc.get("max_states", 60000), stop_prefix=prefix,
-                      time_budget=sc.get("time_budget", 300.0))
+                      time_budget=sc.get("time_budget", default_budget))
         acc.states += res.states
         acc.transitions += res.transitions
         acc.paths += res.executions
